@@ -64,6 +64,7 @@ L_TAG = [
     ("tag_re", "k", "search", "B", re.I),
     ("tag_test", "k", "f_is_a"),
     ("tag_map", "k", "f_upper", "==", "A"),
+    ("tags_map", "f_keys", "!=", "k"),  # true on a point without tags: the function sees the empty set
     ("noop", "tag"),
 ]
 L_FIELD = [
@@ -71,6 +72,7 @@ L_FIELD = [
     ("field_exists", "f"),
     ("field_test", "f", "f_pos", 0),
     ("field_map", "f", "f_neg", OP, SYM),
+    ("fields_map", "f_ntags", OP, SYM),  # len(fields) compared with a number; 0 for a point without fields
     ("noop", "field"),
 ]
 A = ("time", ">=", SYM)
@@ -117,7 +119,7 @@ def attrs(q):
         return attrs(q[1]) | attrs(q[2])
     if k == "noop":
         return {q[1]}
-    return {{"tags": "tag"}.get(k.split("_")[0], k.split("_")[0])}
+    return {{"tags": "tag", "fields": "field"}.get(k.split("_")[0], k.split("_")[0])}
 
 
 FIXED_TAGS = [{"k": "a"}, {}, {"k": None}, {"k": "b"}]
@@ -248,7 +250,13 @@ def _untuple(x):
     return x
 
 
-HARNESS = {"h_hist": h_hist, "h_wide": h_wide}
+def _h_inv(params):
+    from . import histcommon as _hc
+
+    return _hc.h_inv(params)
+
+
+HARNESS = {"h_hist": h_hist, "h_wide": h_wide, "h_inv": _h_inv}
 
 
 def _ob(oid, q, scenario, ai, reindex=False, storage="mem", budget=60, presets=None, **kw):
@@ -265,7 +273,7 @@ def _split(obs):
     """Split obligations whose query has a symbolic operator into one per operator."""
     out = []
     for ob in obs:
-        sq = (ob["params"].get("q") or ()), (ob["params"].get("read") or ())
+        sq = (ob["params"].get("q") or ()), (ob["params"].get("read") or ()), (ob["params"].get("final_q") or ())
         if ob["params"].get("split_op") and _has_op(sq):
             from ..model import OPNAMES
 
@@ -298,19 +306,41 @@ def obligations(tier):
             to = "sym" if "time" in attrs(q) else "ooo"
             big = len(attrs(q)) >= 2
             obs.append(
-                _ob(f"compound/{q_repr(q)}/{cname}/{to}", q, "ins", ai, rx, torder=to, n=2 if len(attrs(q)) >= 3 and not thorough else 3, alpha="full" if thorough or not big else ("sel" if len(attrs(q)) >= 3 else "small"), budget=300 if thorough else 60)
+                _ob(f"compound/{q_repr(q)}/{cname}/{to}", q, "ins", ai, rx, torder=to, n=2 if len(attrs(q)) >= 3 and not thorough else 3, alpha=("small" if thorough and big else "full") if thorough or not big else ("sel" if len(attrs(q)) >= 3 else "small"), budget=300 if thorough else 60)
             )
     reps = [("time", OP, SYM), B, C, ("and", A, ("or", B, C)), ("noop", "tag")]
     for scen in SCENARIOS:
         if scen == "ins":
             continue
-        for q in reps if thorough else reps[:3]:
+        for q in reps[:4] if thorough else reps[:3]:
             for cname, ai, rx in CONFIGS if thorough else CONFIGS[:1]:
                 tsym = "time" in attrs(q) or scen in ("rm_time", "upd_time")
                 for to in ["sym"] if tsym else (["inc", "ooo"] if thorough else ["ooo"]):
                     obs.append(
-                        _ob(f"hist/{scen}/{q_repr(q)}/{cname}/{to}", q, scen, ai, rx, torder=to, alpha="small" if thorough else "sel", budget=600 if thorough else 60, split_op=True)
+                        _ob(f"hist/{scen}/{q_repr(q)}/{cname}/{to}", q, scen, ai, rx, torder=to, alpha="small" if (thorough and q == B) else "sel", budget=300 if thorough else 60, split_op=True)
                     )
+    # multi-operation histories [X, Y] followed by every read op with a varied final query / filter / handle
+    from . import histcommon as _hc
+
+    xs = ["ins", "insm", "rm_tag", "rm_time", "upd", "upd_tags", "upd_time", "upd_meas", "drop", "rmall", "ins_notime", "reindex", "read"]
+    finals = [
+        {"final_q": ("time", OP, SYM)},
+        {"final_q": ("tag", "k", "==", "a"), "final_mfilter": "m"},
+        {"final_q": ("and", ("time", ">=", SYM), ("tag", "k", "==", "a"))},
+        {"final_q": ("tag", "k", "!=", "zz"), "final_via": "n"},
+    ]
+    seq = []
+    for x in xs:
+        for y in xs:
+            if x in ("reindex", "read") and y in ("reindex", "read"):
+                continue
+            for fi, fin in enumerate(finals):
+                for ai in (True, False):
+                    ops = [_hc.OPLIB[o] for o in ("ins", "ins", x, y)]
+                    meas = "drop" in (x, y) or "upd_meas" in (x, y) or fi in (1, 3)
+                    seq.append({"id": f"seq/{'ai' if ai else 'noai'}/ins,ins,{x},{y}/final{fi}", "harness": "h_inv", "params": dict({"ops": ops, "ai": ai, "alpha": "sel", "also": ["tag", "meas"] if meas else ["tag"], "torder": _hc.seq_torder(("ins", "ins", x, y)), "split_op": True}, **fin), "budget_s": 120 if not thorough else 600, "presets": {}})
+    # the whole family is 1320 histories (about 0.7 s each on 16 cores): an evenly spaced slice per tier
+    obs.extend(_hc.thin(seq, 240 if thorough else 44))
     # wide databases: 10 points, every subset of matching positions
     for kind in ("read", "rm", "upd"):
         for cname, ai, rx in CONFIGS[:2] + [("manual-pre", False, False)]:
@@ -346,9 +376,8 @@ def obligations(tier):
                     _ob(f"csv/{scen}/{q_repr(q)}/{cname}", q, scen, ai, rx, storage="csv", n=3 if thorough else 2, torder="sym", reopen=(cname == "scan"), alpha="small" if thorough else "sel", budget=600 if thorough else 90, split_op=True)
                 )
     if thorough:
-        for q in leaves + COMPOUNDS:
-            if "time" in attrs(q) or q[0] in ("tag", "field"):
-                obs.append(_ob(f"n4/{q_repr(q)}", q, "ins", True, False, n=4, torder="sym", alpha="small", budget=900))
+        for q in L_TIME + [("tag", "k", OP, SYM), ("field", "f", OP, SYM), ("and", A, B), ("or", A2, C), ("not", ("and", A, B))]:
+            obs.append(_ob(f"n4/{q_repr(q)}", q, "ins", True, False, n=4, torder="sym", alpha="sel", budget=600, split_op=True))
     # reachability twins: one per scenario family
     for scen in ("ins", "rm", "upd", "rmall_ins"):
         obs.append(_ob(f"twin/{scen}", A, scen, True, False, twin=True, alpha="sel"))
